@@ -86,6 +86,7 @@ func copyDir(src, dst string) error {
 //	"honest"  full key generation, then one batch of two messages signed by everyone
 //	"decline" participant 1 declines the invitation
 //	"dkgerr"  participant 1's machine reports an error in the deals phase
+//	"twobatches" like "honest" plus a second batch (a baked range)
 //	"tworounds" an honest key generation (round A, not snapshotted) followed by a second one with the same
 //	          participants and keys (round B, snapshotted); Round is B, RoundA the first
 func getTrace(t *testing.T, kind string, n, thr int) (*ceremonyTrace, error) {
@@ -211,7 +212,7 @@ func getTrace(t *testing.T, kind string, n, thr int) (*ceremonyTrace, error) {
 			terr = err
 			return
 		}
-		if kind == "honest" {
+		if kind == "honest" || kind == "twobatches" {
 			if s := w.StateOf(0, round); s != "stage_signing_idle" {
 				terr = fmt.Errorf("trace %s: node 0 ended key generation in %q", key, s)
 				return
@@ -223,6 +224,16 @@ func getTrace(t *testing.T, kind string, n, thr int) (*ceremonyTrace, error) {
 			if err := drive(); err != nil {
 				terr = err
 				return
+			}
+			if kind == "twobatches" {
+				if err := w.ProposeBaked(0, round, 3, 5); err != nil {
+					terr = err
+					return
+				}
+				if err := drive(); err != nil {
+					terr = err
+					return
+				}
 			}
 		}
 		tr.Board = w.Board.All()
